@@ -46,7 +46,8 @@ func (f Fault) String() string {
 }
 
 // ByteSetValues are the byte values a byte_set fault writes.
-var ByteSetValues = []byte{0x00, 0x01, 0x7f, 0x80, 0xff, 0x1f, 0x8b, 0x30, 0x5c, 0x78}
+// (0x02..0x07 are the WKB geometry type codes: a media fault that turns one member's type into another's)
+var ByteSetValues = []byte{0x00, 0x01, 0x7f, 0x80, 0xff, 0x1f, 0x8b, 0x30, 0x5c, 0x78, 0x02, 0x03, 0x04, 0x05, 0x06, 0x07}
 
 // WordSetValues are the 32-bit values a word_set fault writes (count inflation).
 // WordSetValues are the 32-bit values a word_set fault writes (count
